@@ -679,6 +679,69 @@ fn server_queues(addr: std::net::SocketAddr) -> (u64, u64) {
     total
 }
 
+/// C07 over the production TCP / TLS server task: sessions ended by malformed input leave nothing
+/// behind - every other session keeps being served and the session limit still counts live
+/// sessions only
+pub fn garbage_isolation_phase() -> Stats {
+    use SEv::*;
+    let mut histories: Vec<History> = vec![];
+    for tls in [false, true] {
+        for (max_sessions, events) in [
+            (2usize, vec![Connect, Connect, Garbage(1), Connect, Request(0)]),
+            (2, vec![Connect, Garbage(0), Connect, Connect, Request(1), Request(2)]),
+            (2, vec![Connect, Garbage(0), Connect, Garbage(1), Connect, Connect, Request(2)]),
+            (3, vec![Connect, Connect, Connect, Garbage(2), Garbage(1), Connect, Connect, Request(0)]),
+            (1, vec![Connect, Garbage(0), Connect, Request(1)]),
+            (2, vec![Connect, HalfFrame(0), Connect, Garbage(1), Connect, Request(0)]),
+        ] {
+            histories.push(History { max_sessions, tls, events });
+        }
+    }
+    let hist = Arc::new(histories);
+    let results: Arc<std::sync::Mutex<Vec<(usize, Vec<(String, String)>)>>> = Arc::new(std::sync::Mutex::new(vec![]));
+    rt().block_on(async {
+        let sem = Arc::new(tokio::sync::Semaphore::new(6));
+        let mut joins = vec![];
+        for i in 0..hist.len() {
+            let (hist, results, sem) = (hist.clone(), results.clone(), sem.clone());
+            joins.push(tokio::spawn(async move {
+                let _p = sem.acquire().await.unwrap();
+                let mut r = run_history(&hist[i]).await;
+                if !r.is_empty() && !r[0].0.starts_with("server-handle-blocked") {
+                    let r2 = run_history(&hist[i]).await;
+                    let r3 = run_history(&hist[i]).await;
+                    if r2.is_empty() || r3.is_empty() {
+                        r = vec![];
+                    }
+                }
+                results.lock().unwrap().push((i, r));
+            }));
+        }
+        for j in joins {
+            let _ = j.await;
+        }
+    });
+    let mut st = Stats::default();
+    let mut res = results.lock().unwrap().clone();
+    res.sort_by_key(|x| x.0);
+    for (i, problems) in res {
+        let h = &hist[i];
+        st.evaluations += 1;
+        st.traces += 1;
+        st.transitions += h.events.len() as u64;
+        st.class("server-task:garbage-on-one-session");
+        st.observe(&(h.tls, h.max_sessions, format!("{:?}", h.events), problems.len()));
+        for (sig, desc) in problems {
+            st.violation(Violation {
+                signature: format!("malformed-input-affects-other-sessions:{sig}"),
+                summary: format!("max_sessions={} tls={} history {:?}: {desc}", h.max_sessions, h.tls, h.events),
+                replay: json!({"kind": "c15", "max_sessions": h.max_sessions, "tls": h.tls, "events": h.events}),
+            });
+        }
+    }
+    st
+}
+
 /// C20 over the production TCP / TLS server task: bursts of decode-level changes (more than a
 /// session's command queue holds) at every position of short connect / request scripts. Every
 /// request must still be answered, by the same session, with the same bytes.
